@@ -535,6 +535,8 @@ Section Specs.
     (fun r w' => (r = 0 /\ st (pr_with_cwd (abs_path (pr_cwd p) path) p) w') \/ (r = -1 /\ st p w' /\ 0 < pr_errno (curp w'))) QS.
   Proof.
     unfold sys_chdir. hb; [apply h_prelude|]. intros f. hpre.
+    destruct (match path with [] => true | _ => false end).
+    { eapply hoare_conseq; [| | |apply h_fail]; [intros w1 S1; exact S1|intros r w1 (-> & S1 & He); right; split; [reflexivity|split; [exact S1|rewrite He; unfold ENOENT; lia]]|auto]. }
     hb; [apply h_get|]. intros w0. apply hoare_pre. intros w [-> S].
     pose proof S as (_ & _ & E). rewrite (noerr_cwd _ _ E).
     eapply hoare_conseq with (P := st p); [intros ? ->; exact S|intros a w' X; exact X|intros w' X; exact X|].
